@@ -328,6 +328,36 @@ def _check(hyps, goal, rlimit, wall_ms):
     return str(r), (s.reason_unknown() if r == z3.unknown else "")
 
 
+def elim_div(terms):
+    """name every real quotient by a reciprocal: a/d becomes a*r_d with a fresh constant r_d and the hypothesis d != 0 -> d*r_d == 1
+    (r_d is just a name for 1/d, so the rewritten problem is equisatisfiable; it is polynomial, which the solver handles far better).
+    returns (rewritten terms, extra hypotheses); only used when the formulas are quantifier free"""
+    cache, recips = {}, {}
+
+    def walk(t):
+        k = t.get_id()
+        if k in cache:
+            return cache[k]
+        if z3.is_quantifier(t) or not z3.is_app(t) or t.num_args() == 0:
+            cache[k] = t
+            return t
+        args = [walk(c) for c in t.children()]
+        if t.decl().kind() == z3.Z3_OP_DIV and t.sort() == z3.RealSort() and not (z3.is_rational_value(args[1]) or z3.is_int_value(args[1])):
+            d = args[1]
+            if d.get_id() not in recips:
+                recips[d.get_id()] = (d, z3.Real("recip!%d" % len(recips)))
+            r = args[0] * recips[d.get_id()][1]
+        elif all(a.eq(b) for a, b in zip(args, t.children())):
+            r = t
+        else:
+            r = t.decl()(*args)
+        cache[k] = r
+        return r
+    out = [walk(t) for t in terms]
+    extra = [z3.Implies(d != 0, d * r == 1) for d, r in recips.values()]
+    return out, extra
+
+
 def _solve_prepared(p, rlimit, wall_ms, fallbacks):
     t0 = time.time()
     short = min(wall_ms, max(15000, wall_ms // 4))
@@ -342,6 +372,10 @@ def _solve_prepared(p, rlimit, wall_ms, fallbacks):
         stages.append(("nl-abstraction", p.ahyps + _comm_hyps(p.ahyps + [p.agoal]), p.agoal, short))
     if p.nl and len(p.qf_idx) < len(p.hyps):
         stages.append(("qf-hyps", [p.hyps[i] for i in p.qf_idx], p.goal, short))
+    if len(p.qf_idx) == len(p.hyps) and not _has_quant(p.goal):
+        rew, extra = elim_div(list(p.hyps) + [p.goal])
+        if extra:
+            stages.append(("reciprocals-named", rew[:-1] + extra, rew[-1], short))
     stages.append(("exact", p.hyps, p.goal, wall_ms))
     res, reason, backend = "unknown", "", "z3-5.1"
     for tag, hy, goal, ms in stages:
